@@ -6,7 +6,7 @@
 (*   mnb    : multinomial naive Bayes, 2 count features {0,1,2}, two classes, <= MnbN rows, every cut, *)
 (*            alpha in {0, 1/2, 1}                                                                     *)
 (*   kmeans : mini-batch k-means, 1-D points {0,1,2,4}, two precomputed centroids, <= KmN points,      *)
-(*            every cut, tolerances {1/2, 1, 2}                                                        *)
+(*            every cut, tolerances {1/2, 3/4, 3/2, 5/2}, metrics L2 / L1 / Linf                       *)
 (*   ftrl   : one update from a chosen (z, n), every batch of <= 2 rows over x in {-1,0,1,2}, d = 1    *)
 (* The orchestrator (props/c15.py) keeps the complete low-size sub-domains and a seeded sample of the   *)
 (* largest size, and adds seeded random multi-feature / multi-batch histories of the same schema.      *)
@@ -43,12 +43,15 @@ MnbCase ==
 RECURSIVE Split(_, _)
 Split(s, cut) == IF cut = <<>> THEN <<>> ELSE <<SubSeq(s, 1, cut[1])>> \o Split(SubSeq(s, cut[1] + 1, Len(s)), Tail(cut))
 
+\* tolerances strictly between attainable shifts and their squares, above and below 1: a movement d with
+\* tol <= d < tol^2 (tol > 1) or tol^2 <= d < tol (tol < 1) separates "distance < tol" from "squared < tol^2"
+\* for the metrics whose reduced distance is the distance itself (L1, Linf)
 KmCase ==
   \E nn \in 1..KmN :
-  \E pts \in [1..nn -> {0, 1, 2, 4}], cut \in Compositions(nn), tol \in {R(1, 2), R(1, 1), R(2, 1)},
-     cent \in {<<<<0>>, <<4>>>>, <<<<1>>, <<1>>>>, <<<<3>>, <<0>>>>} :
+  \E pts \in [1..nn -> {0, 1, 2, 4}], cut \in Compositions(nn), tol \in {R(1, 2), R(3, 4), R(3, 2), R(5, 2)},
+     cent \in {<<<<0>>, <<4>>>>, <<<<1>>, <<1>>>>, <<<<3>>, <<0>>>>}, metric \in {"l2", "l1", "linf"} :
     case = [kind |-> "kmeans",
-            inp |-> [d |-> 1, k |-> 2, init |-> "pre", cent |-> cent, nruns |-> 1, seed |-> 1, tol |-> tol,
+            inp |-> [d |-> 1, k |-> 2, init |-> "pre", cent |-> cent, nruns |-> 1, seed |-> 1, tol |-> tol, metric |-> metric,
                      batches |-> Split(Seq1(pts, nn), cut)]]
 
 FtHypers == {[alpha |-> R(1, 2), beta |-> R(1, 1), l1 |-> R(1, 2), l2 |-> R(1, 2)],
